@@ -255,7 +255,9 @@ def gen_history(rng, i):
         hist.append(H.tolist())
         # earlier calls may be in ANOTHER dtype than the call under test (they may be rejected for it: that is fine)
         hist_dtypes.append(dname if rng.random() < 0.6 else ("float32" if dname == "float64" else "float64"))
-    return {"J": J.tolist(), "history": hist, "history_dtypes": hist_dtypes, "agg": desc, "dtype": dname, "seed": int(rng.integers(1 << 20))}
+    # the caller may keep ONE pre-allocated Jacobian buffer and refill it in place before every call (same tensor object, new content)
+    return {"J": J.tolist(), "history": hist, "history_dtypes": hist_dtypes, "agg": desc, "dtype": dname, "seed": int(rng.integers(1 << 20)),
+            "buffer": bool(rng.random() < 0.4)}
 
 
 def check_history(case, ctx):
@@ -264,15 +266,28 @@ def check_history(case, ctx):
     Jt = to_t(np.array(case["J"], dtype=np.float64).reshape(len(case["J"]), -1), dname)
     used = aggs.make(desc, DT[dname])
     hd = case.get("history_dtypes") or [dname] * len(case["history"])
+    buf, refills = None, 0
     for k, H in enumerate(case["history"]):
         torch.manual_seed(1000 + k)
-        _, err, _ = call(used, to_t(np.array(H, dtype=np.float64).reshape(len(H), -1), hd[k]))
+        Ht = to_t(np.array(H, dtype=np.float64).reshape(len(H), -1), hd[k])
+        if case.get("buffer") and Ht.shape == Jt.shape and Ht.dtype == Jt.dtype:
+            if buf is None:
+                buf = Ht
+            else:
+                buf.copy_(Ht)
+                refills += 1
+            Ht = buf
+        _, err, _ = call(used, Ht)
         if err is not None:
             ctx.count("obs_history_call_rejected")  # a rejected earlier call must not leave a trace either
         if hd[k] != dname:
             ctx.count("w_history_call_in_other_dtype")
     torch.manual_seed(case["seed"])
-    o1, e1, _ = call(used, Jt)
+    if buf is not None:
+        buf.copy_(Jt)  # the judged call sees the SAME tensor object as earlier calls, refilled in place
+        refills += 1
+        ctx.count("w_matrix_buffer_refilled_in_place")
+    o1, e1, _ = call(used, buf if buf is not None else Jt)
     fresh = aggs.make(desc, DT[dname])
     torch.manual_seed(case["seed"])
     o2, e2, _ = call(fresh, Jt)
